@@ -122,6 +122,7 @@ for FullSync<'a, ItemType, BUFFER_SIZE, MAX_STREAMS> {
         match self.container.publish_movable(item) {
             (Some(len_after), _none_item) => {
                 let len_after = len_after.get();
+                #[cfg(feature = "verif")] crate::verif::note(crate::verif::UNI_AFTER_PUBLISH_BEFORE_WAKE, len_after as u64);
                 #[cfg(feature = "verif")] crate::verif::point(crate::verif::UNI_AFTER_PUBLISH_BEFORE_WAKE);
                 if len_after <= MAX_STREAMS as u32 {
                     self.streams_manager.wake_stream(len_after-1)
@@ -137,6 +138,7 @@ for FullSync<'a, ItemType, BUFFER_SIZE, MAX_STREAMS> {
     #[inline(always)]
     fn send_with<F: FnOnce(&mut ItemType)>(&self, setter: F) -> keen_retry::RetryConsumerResult<(), F, ()> {
         let setter_option = self.container.publish(setter, || false, |len_after| {
+            #[cfg(feature = "verif")] crate::verif::note(crate::verif::UNI_AFTER_PUBLISH_BEFORE_WAKE, len_after as u64);
             #[cfg(feature = "verif")] crate::verif::point(crate::verif::UNI_AFTER_PUBLISH_BEFORE_WAKE);
             if len_after <= MAX_STREAMS as u32 {
                 self.streams_manager.wake_stream(len_after - 1)
@@ -157,6 +159,7 @@ for FullSync<'a, ItemType, BUFFER_SIZE, MAX_STREAMS> {
         if let Some((slot, _slot_id, len_before)) = self.container.leak_slot_internal(|| false) {
             setter(slot).await;
             self.container.publish_leaked_internal();
+            #[cfg(feature = "verif")] crate::verif::note(crate::verif::UNI_AFTER_PUBLISH_BEFORE_WAKE, len_before as u64 + 1);
             #[cfg(feature = "verif")] crate::verif::point(crate::verif::UNI_AFTER_PUBLISH_BEFORE_WAKE);
             if len_before < MAX_STREAMS as u32 {
                 self.streams_manager.wake_stream(len_before);
